@@ -34,16 +34,13 @@ class WeightedGraph:
         i, j = item
         self.N.add(i)
         self.N.add(j)
-        if value != self.WeightType.zero:
+        if value != self.WeightType.zero or (i, j) in self.E:
+            # an update that cancels an existing edge (possible when weights are signed)
+            # must not leave the old weight behind: the edge stays, with weight zero, so
+            # that the structure of the graph (its components) does not depend on weights
             self.E[i, j] = value
             self.incoming[j].add(i)
             self.outgoing[i].add(j)
-        elif (i, j) in self.E:
-            # an update that cancels an existing edge (possible when weights are signed)
-            # removes it; keeping the old weight would be wrong
-            del self.E[i, j]
-            self.incoming[j].discard(i)
-            self.outgoing[i].discard(j)
         return self
 
     def closure(self):
